@@ -8,6 +8,7 @@ import (
 	"runtime"
 	"strings"
 	"sync"
+	"sync/atomic"
 	"testing"
 	"time"
 
@@ -43,7 +44,7 @@ var configs = []fiber.Config{
 	{},                                   // + custom ctx
 	{BodyLimit: 64, ReadBufferSize: 512}, // + an application ErrorHandler that looks at the request (every accessor) before it answers like the default one
 	{RequestMethods: []string{"GET", "HEAD"}}, // + the same ErrorHandler, reduced method set
-	{BodyLimit: -1},                           // not a positive limit: the server's default limit applies
+	{BodyLimit: -1}, // not a positive limit: the server's default limit applies
 }
 
 const nConfigs = 9
@@ -51,7 +52,7 @@ const nConfigs = 9
 type world struct {
 	app     *fiber.App
 	helpers []Helper
-	ran     int
+	ran     atomic.Int64 // (handlers of several connections run at once in the parallel property)
 	hpanic  string
 }
 
@@ -80,7 +81,7 @@ func newWorld(cfgIdx int, helpers []Helper) *world {
 	app.Use(func(c fiber.Ctx) error { return c.Next() })
 	methods := app.Config().RequestMethods
 	app.Add(methods, "/o/:p/*", func(c fiber.Ctx) error {
-		w.ran++
+		w.ran.Add(1)
 		_ = vk.Observe(c, "k")
 		_ = c.Subdomains(1)
 		_ = c.Subdomains(5)
@@ -325,7 +326,7 @@ func check(c Case) vk.Verdict {
 	if _, err := vk.Wire(w.app, []byte("GET /o/w/x HTTP/1.1\r\nHost: h\r\n\r\n")); err != nil {
 		return vk.Failf("config %d helpers %+v: warm-up request: %v", c.Config, c.Helpers, err)
 	}
-	w.ran = 0
+	w.ran.Store(0)
 	allocMu.Lock()
 	var m0, m1 runtime.MemStats
 	runtime.ReadMemStats(&m0)
@@ -470,8 +471,8 @@ func check(c Case) vk.Verdict {
 			}
 		}
 	}
-	v.NonTrivial = w.ran > 0 && (hostileArg || exercisesParsers(c))
-	if w.ran > 0 {
+	v.NonTrivial = w.ran.Load() > 0 && (hostileArg || exercisesParsers(c))
+	if w.ran.Load() > 0 {
 		v.Classes = append(v.Classes, "handler-ran")
 	}
 	if hostileArg {
@@ -603,7 +604,7 @@ func genReq(t *rapid.T) Req {
 		Target: rapid.SampledFrom([]string{"/o/x/y", "/o/x/y", "/o/x/y", "/o/x/y?a=1&b=2&b=3&n=7", "/o/x/y?a=1&b=2&b=3&n=7", "/o/sub/deep/er?a=%20x", "/o/%41/z%2Fw?a=%zz", "/o/x/", "/o/x/y?n=abc", "/o/x", "/", "/nope", "*", "http://evil.test/o/x/y", "/o/x/y?" + strings.Repeat("k=v&", 40), "/o/\xff\xfe/y", "//o/x/y", "/o/x/y#frag", "o/x/y", "",
 			// percent signs that are not an escape: cut off at the end of the path, alone, followed by non-hex digits
 			"/o/x/y%2", "/o/x/%4", "/o/x/y%", "/o/x/%zz", "/o/x/%2?a=1", "/o/%/y%", "//", "///", "/o/x//"}).Draw(t, "target"),
-		Proto:  rapid.SampledFrom([]string{"", "", "", "", "", "", "", "", "", "HTTP/1.0", "HTTP/1.0", "HTTP/2.0", "HTTP/000", "XTTP/1.1"}).Draw(t, "proto")}
+		Proto: rapid.SampledFrom([]string{"", "", "", "", "", "", "", "", "", "HTTP/1.0", "HTTP/1.0", "HTTP/2.0", "HTTP/000", "XTTP/1.1"}).Draw(t, "proto")}
 	add := func(k string, vals []string) {
 		if rapid.IntRange(0, 3).Draw(t, "has"+k) == 0 {
 			r.Headers = append(r.Headers, [2]string{k, rapid.SampledFrom(vals).Draw(t, "v"+k)})
@@ -750,7 +751,7 @@ func checkRaw(c RawCase) vk.Verdict {
 	if _, err := vk.Wire(w.app, []byte("GET /o/w/x HTTP/1.1\r\nHost: h\r\n\r\n")); err != nil {
 		return vk.Failf("warm-up: %v", err)
 	}
-	w.ran = 0
+	w.ran.Store(0)
 	allocMu.Lock()
 	var m0, m1 runtime.MemStats
 	runtime.ReadMemStats(&m0)
@@ -773,7 +774,7 @@ func checkRaw(c RawCase) vk.Verdict {
 	if e1 != nil && e2 != nil && !bytes.Contains(c.Bytes, []byte("HEAD")) {
 		return vk.Failf("%s: output is not a well-formed response stream: %v\noutput %q", ctx, e1, clip(out, 800))
 	}
-	return vk.Verdict{NonTrivial: w.ran > 0, Classes: []string{fmt.Sprintf("config:%d", c.Config%nConfigs), fmt.Sprintf("handler-ran:%v", w.ran > 0)}}
+	return vk.Verdict{NonTrivial: w.ran.Load() > 0, Classes: []string{fmt.Sprintf("config:%d", c.Config%nConfigs), fmt.Sprintf("handler-ran:%v", w.ran.Load() > 0)}}
 }
 
 var rawSeeds = []string{
